@@ -76,9 +76,9 @@ var specs = map[string]*checkSpec{
 		StateDef: "distinct (mode, number of plug-in calls) pairs",
 		Assume:   []string{"'already carries symbols' is read as the HasFunctions flag (the weakest reading both code paths honour)", "single faults are enumerated exhaustively per generated profile; multi-fault plans and profiles are sampled"}},
 	"C20": {Prop: "C20", Engine: "c20", Pkg: "internal/driver", Race: true, Level: "exploration", QuickS: 45, ThorS: 1200,
-		Rule:     "built with -race; the scheduler's baton hand-offs are invisible to the race detector (runtime.RaceDisable around the hand-off, //go:norace scheduler and simulated kernel), so the detector sees exactly the synchronisation pprof performs itself while the interleaving is dictated by the tape (random walk at sync, I/O and function-entry points, or PCT). Scenarios: 2-4 tasks Write/WriteUncompressed/Copy one shared profile (bytes must equal the sequential serialization); option get/set by writers and readers (no torn config, register linearizability by exact search); 2-6 tasks creating temp files with equal prefixes against a pre-populated directory (distinct names, nothing clobbered, registry cleaned exactly once); 2-4 concurrent web clients incl. /download and first use of the HTML templates (responses equal the solo responses on a fresh session); concurrent multi-source fetch with faults (C16 oracles). Any race report, deadlock or step-limit hang is a violation. A case is distinct by (scenario, operations, context-switch signature) and non-trivial if at least one context switch happened between the concurrent operations",
+		Rule:     "built with -race; the scheduler's baton hand-offs are invisible to the race detector (runtime.RaceDisable around the hand-off, //go:norace scheduler and simulated kernel), so the detector sees exactly the synchronisation pprof performs itself while the interleaving is dictated by the tape (random walk at sync, I/O and function-entry points, or PCT). Scenarios: 2-4 tasks Write/WriteUncompressed/Copy one shared profile (bytes must equal the sequential serialization); option get/set by writers and readers (no torn config, register linearizability by exact search); 2-6 tasks creating temp files with equal prefixes against a pre-populated directory (distinct names, nothing clobbered, registry cleaned exactly once); 2-4 concurrent web clients incl. /download and first use of the HTML templates (responses equal the solo responses on a fresh session); 2-3 clients issuing /saveconfig and /deleteconfig concurrently, optionally killed at a seeded I/O call (linearizability, acknowledged requests survive); concurrent multi-source fetch with faults (C16 oracles plus byte equality with the one-at-a-time schedule); 2-4 tasks calling SourceLine/ObjAddr on one shared binutils ObjFile backed by scripted addr2line or llvm-symbolizer line protocols on simulated pipes while another task toggles fast symbolization (each answer must equal the sequential answer for its own address), followed by concurrent SetTools and SetFastSymbolization (both must have taken effect). Any race report, deadlock or step-limit hang is a violation. A case is distinct by (scenario, operations, context-switch signature) and non-trivial if at least one context switch happened between the concurrent operations",
 		StateDef: "distinct sets of temp-file names handed out (temp-file scenario)",
-		Assume:   []string{"the race detector reports a racy pair of accesses only if both occur in the run (they need not collide); torn multi-word reads between two instructions of one statement are left to it", "the symbolizer tool access scenario (binutils, addr2line pipes) runs in its own engine when registered; it is not part of this evidence file unless listed in the rule"}},
+		Assume:   []string{"the race detector reports a racy pair of accesses only if both occur in the run (they need not collide); torn multi-word reads between two instructions of one statement are left to it", "the tool access scenario reaches binutils through the addr2line-path-contains-testdata escape hatch of Binutils.Open (no ELF file is parsed); fileNM is not exercised"}},
 	"C16": {Prop: "C16", Engine: "c16", Pkg: "internal/driver", Level: "exploration", QuickS: 45, ThorS: 1200,
 		Rule:     "cases are seeded source lists (1..6, 127..130, 255..300 sources, 0..3 bases, kinds file/URL/Fetcher) with a seeded per-source fault plan (missing, HTTP 404/500, garbage, torn body or file, invalid profile, Fetcher error, stall until the client timeout in simulated time, disk read error) run through the real driver.PProf with every fetch goroutine a simulated task under run-to-block, random-walk (sync, I/O and function-entry preemption) or PCT scheduling and seeded simulated latencies; plus a block that enumerates, for n<=3 (quick) / n<=4 (thorough) remote sources, every failing subset x every completion order. Oracles: reference model built from the generator's description of the good sources, byte equality with the sequential zero-latency schedule, byte equality with the run listing only the good sources, per-source error accounting, exit status, no deadlock/hang. A sampled case is distinct by (source list with kinds, faults and latencies, context-switch signature) and non-trivial if it has >=2 sources or bases and at least one context switch happened",
 		StateDef: "distinct (n, failing-subset signature, completion-order signature) triples",
